@@ -247,9 +247,13 @@ def record(seed, texts):
         code = None
         if msgs and msgs[-1][0].get("method") == "exit":
             try:
-                code = c.proc.wait(timeout=5)
+                code = c.proc.wait(timeout=30)
             except Exception:
                 code = None
+            # what the server wrote before it exited but the client had not read yet (a slow machine):
+            # it belongs before the exit event
+            for g in c.read(1.0):
+                events.append(abstract_recv(g, diag_texts, diag_seen, diag_payloads))
             events.append({"ev": "exit", "code": code if code is not None else -99})
         alive = c.alive()
         rc = c.proc.poll()
